@@ -44,6 +44,12 @@ CHECKS = {
             "each registered dataclass is instantiated from its type hints with marker-vocabulary strings and round-tripped.",
             "Fields that differ between two fresh in-process extractions (C06's findings) are masked in the CLI comparison so C05 does not re-report them.",
             "DESIGN.md §8 C05"),
+    "C06": ("exploration",
+            "purity monitor: buffer sha256 before/after, field-level digests of to_json() across two in-process runs and fresh processes under PYTHONHASHSEED 0/1/2/random, random observer words with digest before/between/after",
+            "The same (bytes, path) is extracted twice in one process and once per fresh worker process under four hash-seed settings; field-level digests of canonical to_json() must agree everywhere; "
+            "the caller's buffer must be unchanged; a seeded random word over 13 observers (full text, units, unit accessors, images, bytes, tables, metadata, to_json) must leave every later observation and the JSON unchanged.",
+            "A relative non-existent path keeps host state out of file metadata; differences are localised two levels deep.",
+            "DESIGN.md §8 C06"),
     "C07": ("exploration",
             "recording stubs on the 21 extractor functions + README-derived routing table; path grammar x 5 mimetypes configurations, each in its own worker process",
             "A routing table transcribed by hand from the README decides which extractor every documented extension/alias must reach; a path grammar (all known extensions, case variants, "
